@@ -272,6 +272,21 @@ pub fn mem_bases() -> Vec<Base> {
               (data (memory $mi1) (i32.const 0) "mi1") (data (memory $m0) (i32.const 4) "m0"))"#,
             true,
         ),
+        // imported memories only (an unused one first), and a function import between them
+        Base::from_wat(
+            "mem-imports-only",
+            r#"(module (type $v (func))
+              (import "env" "mspare" (memory $mspare 3))
+              (import "env" "f0" (func (type $v)))
+              (import "env" "mi0" (memory $mi0 1))
+              (import "env" "mi1" (memory $mi1 2))
+              (func $l0 (type $v) (i32.const 0x5F000000) drop
+                 (i32.const 0) (i32.const 0x51000000) drop (i32.load $mi0) drop
+                 (i32.const 0) (i32.const 0) (i32.const 0x51000001) drop (i32.store $mi1)
+                 (i32.const 0x51000002) drop (memory.size $mi1) drop)
+              (export "e_mi1" (memory $mi1)) (data (memory $mi1) (i32.const 0) "mi1"))"#,
+            true,
+        ),
         // exactly one imported and one local memory
         Base::from_wat(
             "mem-one-each",
